@@ -66,13 +66,19 @@ def run(tier, seed):
         pub = public_members(cls)
         nonpub = nonpublic_members(cls)
         combos = [(w_, "open") for w_ in widths(tier)] + [(w_, st) for st in STATES[1:] for w_ in (None, 80, 300)]
+        combos += [(80, "open+silent"), (None, "open+silent")]
         for width, state in combos:
             loop = fresh_loop()
             vw.ACTIVE = vw.Recorder(loop)
             pool = make_pool(cls_name, 3)
             prepare(pool, loop, state)
             with cap.active():
-                s = Session(loop, pool, width)
+                silent = None
+                if state == "open+silent":
+                    # an earlier connection that has been accepted but has not sent its handshake line (yet)
+                    silent = Session(loop, pool, width, name="silent", handshake=False)
+                    loop.run_idle()
+                s = Session(loop, pool, width, srv=silent.srv if silent else None)
                 loop.run_idle()
             hs = s.take()
             evaluations += 1
@@ -202,7 +208,9 @@ def replay(v):
     pool = make_pool(v["cls"], 3)
     prepare(pool, loop, v.get("state", "open"))
     with cap.active():
-        s = Session(loop, pool, v.get("width"))
+        silent = Session(loop, pool, v.get("width"), name="silent", handshake=False) if v.get("state") == "open+silent" else None
+        loop.run_idle()
+        s = Session(loop, pool, v.get("width"), srv=silent.srv if silent else None)
         loop.run_idle()
     hs = s.take()
     out = None
